@@ -28,7 +28,7 @@ na = [{"property_id": pid, "reason": NOT_YET.get(pid, "check not built yet in th
       for pid in sorted(props) if pid not in CLAIMED]
 m = {
     "version": 1,
-    "setup_cmd": "cd lean && lake build PyttbModel driver",
+    "setup_cmd": "cd lean && lake build driver " + " ".join(f"PyttbModel.Props.{p}" for p in sorted(CLAIMED)),
     "hooks": {
         "guard": "PYTTB_VERIF",
         "enable": "none needed: observation is done by harness-side wrappers around the public API; no guarded source changes exist",
